@@ -79,6 +79,8 @@ def new_record(rng, recs, d):
             side = rng.choice(["curie", "uri"])
             ps, us = list(a.psyn), list(a.usyn)
             extra = "" if rng.random() < 0.5 else ",".join(sorted(a.psyn if side == "curie" else a.usyn))
+            if len(extra) > 60:
+                extra = ""  # (pytrie walks its keys recursively: the monitors' reading of the trie stays within the stack)
             if side == "curie" and extra not in known_p and d not in extra:
                 ps = [extra] if extra == "" and not a.psyn else [extra] if extra else ps + [""]
             elif side == "uri" and extra not in known_u:
